@@ -159,8 +159,12 @@ pub fn catch<R>(f: impl FnOnce() -> R) -> Result<R, ()> {
 }
 
 pub fn silence_panics() {
-    std::panic::set_hook(Box::new(|_| {
+    let dbg = std::env::var_os("VH_DEBUG").is_some();
+    std::panic::set_hook(Box::new(move |info| {
         crate::simcpu::panic_hook_notify();
+        if dbg {
+            eprintln!("[panic] {}", info);
+        }
     }));
 }
 
